@@ -220,6 +220,18 @@ class Analyzer:
             if v and v[0] == "bool":
                 return ("int", int(v[1]))
             return None
+        if k == "If" and isinstance(n.get("c"), dict) and peel(n["c"]).get("k") == "Let":
+            # `if let Ok(x) = e { Ok(x) } else { Err(E) }` re-wraps the Ok value of e
+            lt = peel(n["c"])
+            pt = lt.get("pat") or {}
+            tb = peel_block(n["t"])
+            while isinstance(tb, dict) and tb.get("k") == "Block" and tb.get("e") is not None and not tb.get("stmts"):
+                tb = peel_block(tb["e"])
+            if pt.get("k") == "Variant" and pt.get("variant") == "Ok" and len(pt.get("subs", [])) == 1 and pt["subs"][0]["p"].get("k") == "Bind" \
+                    and isinstance(tb, dict) and tb.get("k") == "Adt" and tb.get("variant") == "Ok" and tb.get("fields") \
+                    and peel(tb["fields"][0]["e"]).get("k") == "Var" and peel(tb["fields"][0]["e"])["v"] == pt["subs"][0]["p"]["v"]:
+                return self.val(lt["e"], env)
+            return None
         if k == "Const" or k == "ConstBlock":
             if n.get("val") is not None:
                 if n.get("ty") == "bool":
@@ -721,7 +733,12 @@ class Analyzer:
                     env.pop(l["v"], None)
             return then(e2, e1), ("unit",)
         if k == "If":
-            return self.if_(n, env)
+            r_ = self.if_(n, env)
+            if isinstance(r_, tuple) and len(r_) == 2 and r_[1] is None:
+                v_ = self.val(n, env)       # `if let Ok(x) = e { Ok(x) } else { Err(E) }`
+                if v_ is not None:
+                    return r_[0], v_
+            return r_
         if k == "Let":
             e, v = self.expr(n["e"], env)
             acc = self.pat_accepts(n["pat"], v, env)
